@@ -52,6 +52,9 @@ def main():
     tag = "%s-%s" % (owner if owner.startswith("C") else prop, n)
     wt = "/tmp/sv-%s" % tag
     sh(["git", "-C", "/repo", "worktree", "remove", "--force", wt])
+    if os.path.exists(wt):  # left behind by an interrupted earlier run and no longer registered
+        shutil.rmtree(wt, ignore_errors=True)
+        sh(["git", "-C", "/repo", "worktree", "prune"])
     r = sh(["git", "-C", "/repo", "worktree", "add", "--detach", wt, "HEAD"])
     if r.returncode:
         print("worktree failed", r.stderr)
